@@ -28,7 +28,7 @@ def fresh_reference(data, nptdms, lens):
     """chunk sequences of uninterrupted iterators on fresh files"""
     ref = {}
     for p in lens:
-        f, _ = cl.open_real(data, nptdms)
+        f, _ = cl.open_real(data, nptdms, raw_timestamps=RAW[0])
         its = []
         cl.real_op(f, its, ("C", p))
         seq = []
@@ -38,7 +38,7 @@ def fresh_reference(data, nptdms, lens):
             if o["k"] in ("stop", "error"):
                 break
         ref[p] = seq
-    f, _ = cl.open_real(data, nptdms)
+    f, _ = cl.open_real(data, nptdms, raw_timestamps=RAW[0])
     its = []
     cl.real_op(f, its, ("F",))
     seq = []
@@ -51,9 +51,12 @@ def fresh_reference(data, nptdms, lens):
     return ref
 
 
+RAW = [True]        # how the files of a history are opened: raw timestamps (what the model describes) or converted (real code only)
+
+
 def check_history(ctx, model, nptdms, data, ops, lens, stats):
     dis, vio = [], []
-    f, st = cl.open_real(data, nptdms)
+    f, st = cl.open_real(data, nptdms, raw_timestamps=RAW[0])
     its = []
     iter_kind = []     # per iterator: path or None (file)
     iter_pos = []
@@ -78,7 +81,7 @@ def check_history(ctx, model, nptdms, data, ops, lens, stats):
                 mres = None
         # oracle on the real code
         if op[0] in ("I", "S", "R"):
-            f2, _ = cl.open_real(data, nptdms)
+            f2, _ = cl.open_real(data, nptdms, raw_timestamps=RAW[0])
             exp = cl.real_op(f2, [], op)
             if canon.norm({k2: v for k2, v in exp.items() if k2 != "exc"}) != canon.norm({k2: v for k2, v in ro.items() if k2 != "exc"}):
                 vio.append(Violation("op %d (%s) after %d earlier operations differs from the same op on a freshly opened file" % (k, cl.op_token(op), k),
@@ -226,6 +229,7 @@ def run(ctx):
         except Exception:
             continue
         lens = {c.path.encode("utf-8"): len(c) for c in cl.channels_of(f)}
+        has_timestamps = any(c.data_type is not None and c.data_type.enum_value == 0x44 for c in cl.channels_of(f))
         if not lens:
             continue
         histories = [cl.gen_history(ctx.rnd, lens) for _ in range(2)]
@@ -241,6 +245,19 @@ def run(ctx):
             d, v = check_history(ctx, model, nptdms, data, ops, lens, stats)
             disagreements += d
             violations += v
+            if not v and has_timestamps and stats["histories"] % 2 == 0:
+                # the same history on the file opened the DEFAULT way (timestamps converted to datetime64 on delivery): real code
+                # only, every operation against a freshly opened file
+                RAW[0] = False
+                try:
+                    stats["converted_histories"] = stats.get("converted_histories", 0) + 1
+                    _d, v2 = check_history(ctx, None, nptdms, data, ops, lens, stats)
+                finally:
+                    RAW[0] = True
+                for x in v2:
+                    x.what = "[raw_timestamps=False] " + x.what
+                    x.replay["raw_timestamps"] = False
+                violations += v2
             kinds = [o[0] for o in ops]
             inter = any(kinds[a] == "X" and any(k2 in ("I", "S", "R") for k2 in kinds[a + 1:b]) and kinds[b] == "X"
                         for a in range(len(kinds)) for b in range(a + 2, len(kinds)) if kinds[b] == "X")
@@ -309,7 +326,11 @@ def replay(ctx, path):
     nptdms = ctx.nptdms()
     f, _ = cl.open_real(data, nptdms)
     lens = {c.path.encode("utf-8"): len(c) for c in cl.channels_of(f)}
-    _, v = check_history(ctx, None, nptdms, data, ops, lens, dict(ops=0))
+    RAW[0] = rp.get("raw_timestamps", True)
+    try:
+        _, v = check_history(ctx, None, nptdms, data, ops, lens, dict(ops=0))
+    finally:
+        RAW[0] = True
     print("replay: %s" % ([x.what for x in v] or "property holds on this history"))
     return 1 if v else 0
 
